@@ -217,7 +217,7 @@ def r2_order(ctx):
     ctx.check(good, f, nr if nr is not None else f.node, "add_missing_cands appends the unlisted candidates as one last tied group", astx.u(nr)[:100] if nr is not None else "",
               "unlisted candidates are not appended as a single final group (only when there are any)")
     if total < 5:
-        ctx.violated(None, None, "order-pipeline sinks", f"only {total} rebuilt rankings found")
+        ctx.vanished("order-pipeline sinks" + ": " + f"only {total} rebuilt rankings found")
 
 
 # --------------------------------------------------------------------------------------------- R3
